@@ -8,6 +8,7 @@ package main
 import (
 	"fmt"
 	"go/types"
+	"strings"
 
 	"golang.org/x/tools/go/ssa"
 )
@@ -159,6 +160,7 @@ func (ex *Exec) havocLoop(st *State, h *ssa.BasicBlock) {
 		fr.Regs[phi] = ex.fresh(st, phi.Type(), "loop."+phi.Comment, 0)
 	}
 	havocAbs := false
+	havocPrefixes := map[string]bool{}
 	for b := range body {
 		for _, in := range b.Instrs {
 			switch x := in.(type) {
@@ -192,8 +194,13 @@ func (ex *Exec) havocLoop(st *State, h *ssa.BasicBlock) {
 				if fn := cc.StaticCallee(); fn != nil && isRepoFn(fn) {
 					if c, ok := ex.contracts[fnName(fn)]; ok {
 						for _, cl := range c.byKind("modifies") {
-							if len(cl.Mods) > 0 {
-								havocAbs = true
+							for _, m := range cl.Mods {
+								// only the components the callee's frame names can change
+								if p := modPrefix(m); p != "" {
+									havocPrefixes[p] = true
+								} else {
+									havocAbs = true
+								}
 							}
 						}
 						for _, cl := range c.byKind("assigns") {
@@ -226,8 +233,14 @@ func (ex *Exec) havocLoop(st *State, h *ssa.BasicBlock) {
 			}
 		}
 	}
-	if havocAbs {
-		for i := range comps {
+	for i := range comps {
+		hit := havocAbs
+		for p := range havocPrefixes {
+			if comps[i].Name == p || strings.HasPrefix(comps[i].Name, p+".") {
+				hit = true
+			}
+		}
+		if hit {
 			st.abs[comps[i].Name] = Fresh("loop."+comps[i].Name, comps[i].arraySort())
 		}
 	}
@@ -326,4 +339,24 @@ func inductionStep(t *Term) *Term {
 		}
 	}
 	return t
+}
+
+// modPrefix: the state prefix named by a modifies target (st.a.b[k] -> "a.b"); "" for the whole state.
+func modPrefix(e *Expr) string {
+	switch e.Op {
+	case "ident":
+		return ""
+	case "field":
+		b := modPrefix(e.Args[0])
+		if b == "" {
+			if e.Args[0].Op == "ident" && e.Args[0].Name == "st" {
+				return e.Name
+			}
+			return ""
+		}
+		return b + "." + e.Name
+	case "index":
+		return modPrefix(e.Args[0])
+	}
+	return ""
 }
